@@ -266,11 +266,11 @@ class WorkBudget(BaseException):
 
 
 class Meter:
-    """counts Python 'call' events, the maximum stack depth, and normal returns of the inner decoder entry points"""
+    """counts Python function entries ('call' events), the maximum stack depth, and normal returns of the inner decoder entry points.
+    Uses sys.monitoring (cheaper: no builtin-call events); falls back to sys.setprofile when the tool id is taken."""
 
     def __init__(self, budget: int = 0) -> None:
-        self.budget = budget  # calls + builtin calls after which the run is abandoned (0 = never)
-        self.events = 0
+        self.budget = budget  # function entries after which the run is abandoned (0 = never)
         self.calls = 0
         self.depth = 0
         self.max_depth = 0
@@ -288,33 +288,67 @@ class Meter:
             frame = frame.f_back
         self.deep = names.most_common(1)[0][0] if names else 'outside-exabgp'
 
+    def _enter(self, frame_getter) -> None:
+        self.calls += 1
+        if self.budget and self.calls > self.budget:
+            raise WorkBudget()
+        self.depth += 1
+        if self.depth > self.max_depth:
+            self.max_depth = self.depth
+            if self.depth == DEPTH_MAX + 1:
+                self._note_recursion(frame_getter())
+
+    # -- sys.monitoring callbacks
+    def _start(self, code, offset) -> None:
+        self._enter(lambda: sys._getframe(2))
+
+    def _return(self, code, offset, value) -> None:
+        self.depth -= 1
+        if value is not None and code.co_name in INNER_ENTRY:
+            self.inner += 1
+
+    def _leave(self, code, offset, value) -> None:
+        self.depth -= 1
+
+    # -- sys.setprofile fallback
     def _profile(self, frame, event, arg) -> None:
-        if event == 'c_call':
-            self.events += 1
-            if self.budget and self.events > self.budget:
-                raise WorkBudget()
-        elif event == 'call':
-            self.calls += 1
-            self.events += 1
-            if self.budget and self.events > self.budget:
-                raise WorkBudget()
-            self.depth += 1
-            if self.depth > self.max_depth:
-                self.max_depth = self.depth
-                if self.depth == DEPTH_MAX + 1:
-                    self._note_recursion(frame)
+        if event == 'call':
+            self._enter(lambda: frame)
         elif event == 'return':
             self.depth -= 1
             if arg is not None and frame.f_code.co_name in INNER_ENTRY:
                 self.inner += 1
 
     def run(self, fn, *args):
-        previous = sys.getprofile()
-        sys.setprofile(self._profile)
+        mon = getattr(sys, 'monitoring', None)
+        tool = None
+        if mon is not None:
+            try:
+                mon.use_tool_id(mon.PROFILER_ID, 'c03-meter')
+                tool = mon.PROFILER_ID
+            except ValueError:
+                tool = None
+        if tool is None:
+            previous = sys.getprofile()
+            sys.setprofile(self._profile)
+            try:
+                return fn(*args)
+            finally:
+                sys.setprofile(previous)
+        ev = mon.events
+        mon.register_callback(tool, ev.PY_START, self._start)
+        mon.register_callback(tool, ev.PY_RESUME, self._start)
+        mon.register_callback(tool, ev.PY_RETURN, self._return)
+        mon.register_callback(tool, ev.PY_YIELD, self._leave)
+        mon.register_callback(tool, ev.PY_UNWIND, self._leave)
+        mon.set_events(tool, ev.PY_START | ev.PY_RESUME | ev.PY_RETURN | ev.PY_YIELD | ev.PY_UNWIND)
         try:
             return fn(*args)
         finally:
-            sys.setprofile(previous)
+            mon.set_events(tool, 0)
+            for e in (ev.PY_START, ev.PY_RESUME, ev.PY_RETURN, ev.PY_YIELD, ev.PY_UNWIND):
+                mon.register_callback(tool, e, None)
+            mon.free_tool_id(tool)
 
 
 def measured(msg_type: int, body: bytes, negotiated) -> tuple:
@@ -323,7 +357,7 @@ def measured(msg_type: int, body: bytes, negotiated) -> tuple:
     try:
         outcome = meter.run(decode_and_force, msg_type, body, negotiated)
     except WorkBudget:
-        outcome = ('violation', 'cost:calls-superlinear', f'abandoned after {meter.events} call events for a {len(body)} byte body (bound {COST_A}+{COST_B}*len Python calls)')
+        outcome = ('violation', 'cost:calls-superlinear', f'abandoned after {meter.calls} Python calls for a {len(body)} byte body (bound {COST_A}+{COST_B}*len)')
     return outcome, meter
 
 
